@@ -1110,8 +1110,13 @@ class TorConfig:
                     parsed, functools.partial(self.mark_unsaved, rn))
 
             else:
-                if v == '' or v == DEFAULT_VALUE:
-                    parsed = self.parsers[rn].parse(defaults.get(rn, DEFAULT_VALUE))
+                if (v == '' or v == DEFAULT_VALUE) and rn not in defaults:
+                    # unset and no default known (e.g. GETINFO
+                    # config/defaults not supported); __getattr__
+                    # deals with DEFAULT_VALUE
+                    parsed = DEFAULT_VALUE
+                elif v == '' or v == DEFAULT_VALUE:
+                    parsed = self.parsers[rn].parse(defaults[rn])
                 else:
                     parsed = self.parsers[rn].parse(v)
                 self.config[rn] = parsed
